@@ -26,6 +26,10 @@ class FuncInfo:
                 self.decorators.append(d.attr)
             elif isinstance(d, ast.Call) and isinstance(d.func, ast.Name):
                 self.decorators.append(d.func.id)
+            elif isinstance(d, ast.Call) and isinstance(d.func, ast.Attribute):
+                self.decorators.append(d.func.attr)
+            else:
+                self.decorators.append(ast.unparse(d))
         self.qualname = f"{module.name}.{cls.name}.{name}" if cls else f"{module.name}.{name}"
         body = node.body
         if body and isinstance(body[0], ast.Expr) and isinstance(body[0].value, ast.Constant) and isinstance(body[0].value.value, str):
